@@ -80,6 +80,9 @@ func (g *Gauge) Enter() {
 func (g *Gauge) Exit()       { atomic.AddInt64(&g.cur, -1) }
 func (g *Gauge) Peak() int64 { return atomic.LoadInt64(&g.peak) }
 
+// Cur is the number of holders inside the guarded region right now.
+func (g *Gauge) Cur() int64 { return atomic.LoadInt64(&g.cur) }
+
 // Inside is the body of every guarded region of the concurrent runs: stamp enter, gauge, hold,
 // stamp exit (normal or panic) — and panic if asked to.
 func Inside(h *Hist, ga *Gauge, r *verifh.Rng, gid, tid, panPct int) {
@@ -87,12 +90,13 @@ func Inside(h *Hist, ga *Gauge, r *verifh.Rng, gid, tid, panPct int) {
 	h.recAny(gid, "+"+id)
 	ga.Enter()
 	Hold(r)
-	ga.Exit()
 	if r.Intn(100) < panPct {
 		h.recAny(gid, "!"+id)
+		ga.Exit()
 		panic("c05: holder panics")
 	}
 	h.recAny(gid, "-"+id)
+	ga.Exit()
 }
 
 func (h *Hist) recAny(gid int, tok string) {
@@ -161,6 +165,78 @@ func Watchdog(max time.Duration, f func()) bool {
 
 // StuckAfter is the watchdog limit of one concurrent run.
 const StuckAfter = 20 * time.Second
+
+// StuckIdle: a concurrent run whose history counter does not move for this long although the run has
+// not ended is reported as stuck (every goroutine waits for a permit that never comes back).
+const StuckIdle = 4 * time.Second
+
+// WatchdogProgress is Watchdog with an additional no-progress limit: the run is given up as soon as
+// the stamp counter of h stands still for idle (or after max in total). Keeps a failing tree cheap.
+func WatchdogProgress(h *Hist, idle, max time.Duration, f func()) bool {
+	done := make(chan struct{})
+	go func() {
+		defer close(done)
+		f()
+	}()
+	start := time.Now()
+	last := atomic.LoadInt64(&h.ctr)
+	lastMove := start
+	tick := time.NewTicker(20 * time.Millisecond)
+	defer tick.Stop()
+	for {
+		select {
+		case <-done:
+			return true
+		case now := <-tick.C:
+			if c := atomic.LoadInt64(&h.ctr); c != last {
+				last, lastMove = c, now
+			} else if now.Sub(lastMove) > idle {
+				return false
+			}
+			if now.Sub(start) > max {
+				return false
+			}
+		}
+	}
+}
+
+// SpyLock is a sync.Locker that reports (on Waiting) every Unlock issued from inside sync.(*Cond).Wait:
+// the moment a goroutine starts to wait on a condition variable built on it. sync.Cond registers the
+// waiter BEFORE it unlocks, so a Signal sent after the report reaches that waiter. This turns
+// "the call blocks" into an observation that needs no wall-clock timeout.
+type SpyLock struct {
+	mu      sync.Mutex
+	Waiting chan struct{}
+}
+
+func NewSpyLock() *SpyLock { return &SpyLock{Waiting: make(chan struct{}, 1<<12)} }
+
+func (s *SpyLock) Lock() { s.mu.Lock() }
+
+func (s *SpyLock) Unlock() {
+	if inCondWait() {
+		select {
+		case s.Waiting <- struct{}{}:
+		default:
+		}
+	}
+	s.mu.Unlock()
+}
+
+func inCondWait() bool {
+	var pcs [8]uintptr
+	n := runtime.Callers(2, pcs[:])
+	fr := runtime.CallersFrames(pcs[:n])
+	for {
+		f, more := fr.Next()
+		if f.Function == "sync.(*Cond).Wait" {
+			return true
+		}
+		if !more {
+			return false
+		}
+	}
+}
 
 // PickN picks a capacity (small ones and boundary sizes preferred).
 func PickN(r *verifh.Rng) int {
